@@ -28,6 +28,10 @@ CHECKS["C20"] = ("exploration", "schedule control at 11 yield points of follower
   "Stop must return for every enumerated placement and random stop; a watchdog expiry counts only with two identical goroutine dumps in which every wallet goroutine is blocked in a channel/lock/wait-group operation; the database directory must be open-able again; after restart (or without a stop) every tip is applied, the import turns ready, the removed wallet disappears",
   "goroutines are parked only at hook points (outside database transactions); API server and chain notifications are stopped before WalletManager.Stop as in loader.go; bounded progress (40-60 s) stands in for 'eventually'", "§5 C20")
 
+CHECKS["C19"] = ("exploration", "request-grammar monitor: every wallet-facing api.APIServer handler called by reflection under recover() with a 60 s watchdog, requests drawn from a field-name aware grammar over the live wallet state (valid / valid-with-one-field-replaced / generated), interleaved with hostile blocks, unconfirmed transactions, reorganisations, held imports/removals and restarts; follower liveness and logrus exit-handler monitor after every chain event; a tenth under the Go race detector",
+  "no handler may panic, return neither response nor error, or hang with a structural deadlock; after every delivered block / unconfirmed transaction the follower must have consumed it and no wallet goroutine may have died",
+  "handlers that only proxy to the consensus node are not exercised (no such node in the simulator); request strings valid UTF-8, no nil messages; chain events restricted to output classes block validation accepts; consensus minimum staking value lowered to 1 MASS per case", "§5 C19")
+
 CHECKS["C11"] = ("exploration", "reference-model monitor (nested in-memory map with pending overlay) after every operation + porcupine linearizability check of concurrent transaction histories + Go race detector on a tenth of them",
   "sequential: every Get/GetByPrefix/BucketNames/iterator/Seek result and every error return of the real ldb driver on on-disk LevelDB is compared with the model across commit, rollback, error-return and close/reopen; concurrent: recorded call/return histories of whole transactions must be linearizable w.r.t. a sequential map",
   "trusts the 60-line map model and porcupine; iterators checked on committed data only; bucket re-creation error code not demanded", "§5 C11")
